@@ -7,12 +7,17 @@ COMMON_ASSUME = [
 ]
 
 PROPS = {}
+NOT_APPLICABLE = {}
 
 PROPS["C01"] = dict(
     targets=[dict(name="C01", src="vp/props/C01.cpp", maxlen=12 + 4*12)],
     quick=dict(cases=2500, floor=20000),
     thorough=dict(cases=60000, floor=400000, fuzz=dict(time=420)),
     level="exploration",
+    level_text=("Generated-input search (rapidcheck, 16 workers; plus libFuzzer in the thorough tier) over root shapes and view-operation sequences against an independent "
+                "index-mapping model; every element of every resulting view is checked through all access paths, under ASan/UBSan with library assertions on. "
+                "Bounded, dense exploration; cannot prove absence."),
+    technique="model-based differential testing of generated view-operation sequences (rapidcheck + libFuzzer), index-mapping reference model",
     rule=("case = root kind {array, array const, static_array(+const), array_ref(+const)} x D in 1..4 x extents from a table over 0..7 "
           "+ up to 12 operation records decoded totally (indices modulo the current model extent, strides/partition counts from the divisors of the "
           "current size, value category & / && / const& per call; operations not applicable to the current view are skipped and counted); "
@@ -21,4 +26,22 @@ PROPS["C01"] = dict(
           "non-trivial = >= 2 applied operations, >= 1 of them layout-changing (rotate/transpose/reverse/diagonal/partition/chunk/flat), final view has >= 2 elements; "
           "distinct = 64-bit hash of the decoded case text"),
     assumptions=COMMON_ASSUME,
+)
+
+PROPS["C02"] = dict(
+    targets=[dict(name="C02", src="vp/props/C02.cpp", maxlen=12 + 4*8)],
+    quick=dict(cases=1500, floor=12000),
+    thorough=dict(cases=30000, floor=200000, fuzz=dict(time=360)),
+    level="exploration",
+    level_text=("Generated-input search over views produced by the C01 generator; the random-access iterator laws and the canonical-order model of elements() are checked "
+                "at all (or a spread sample of) positions and position pairs, every dereference is compared with the model position. Bounded exploration; cannot prove absence."),
+    technique="algebraic iterator laws + canonical-order reference model over generated views (rapidcheck + libFuzzer)",
+    rule=("case = the C01 generator (root kind x D in 1..4 x extents 0..7 + up to 8 view operations) produces the view; oracle = random-access laws on "
+          "begin()/end(), const begin()/end(), cbegin()/cend() (distance, ++/-- inverse, +=/-=/+/- round trips, <,<=,>,>=,==,!= against positions, it[n] vs *(it+n), "
+          "copy and assignment, post-increment/decrement, *(begin+p) is v[p-th index], const/mutable iterators compare equal) over all positions when size<=9 else a spread sample "
+          "containing both ends; elements() and const elements(): size, forward ++ walk, backward -- walk from end, elements()[k], front/back, +=, -=, it+n, it-n, it[n], "
+          "copy, assignment, comparisons -- every dereference compared with the k-th index tuple in canonical order computed by the model (address - root == model position); "
+          "cursor home()[o]... at every ordinal tuple. non-trivial = final view not compact row-major and >= 2 elements (backward steps, offset subtraction and iterator "
+          "assignment are exercised in every case); distinct = 64-bit hash of the decoded case text"),
+    assumptions=COMMON_ASSUME + ["roots with zero elements (null data pointer) are excluded from the iterator laws and counted (excluded_null_root): end() offsets the null pointer, see known_findings.txt"],
 )
